@@ -53,6 +53,7 @@ def mkDns (z : List ZEnt) : Dns where
   ptr ip := match zfind z 'P' ip with
     | none => .ok []
     | some e => if e.err then .error (errnoOf e.payload) else .ok ((fromHex e.payload).getD [])
+  rawTxt := z.any fun e => e.kind == 'R'
 
 def parseSess (args : List String) : Option (Sess × List String) :=
   match args with
